@@ -329,13 +329,22 @@ impl Walrus {
                         break;
                     }
                 };
+                // A block allocated for an oversized first entry spans several units: recover it as
+                // one block (one id, as at allocation) instead of scanning into its payload.
+                let first_need = (PREFIX_META_SIZE as u64).saturating_add(md.read_size as u64);
+                let block_limit = (first_need.saturating_add(DEFAULT_BLOCK_SIZE - 1) / DEFAULT_BLOCK_SIZE)
+                    .max(1)
+                    .saturating_mul(DEFAULT_BLOCK_SIZE);
+                if block_limit > MAX_FILE_SIZE - block_offset {
+                    break;
+                }
                 let col_name = md.owned_by;
 
                 // scan entries to compute used
                 let block_stub = Block {
                     id: next_block_id as u64,
                     offset: block_offset,
-                    limit: DEFAULT_BLOCK_SIZE,
+                    limit: block_limit,
                     used: 0,
                     file_path: file_path.clone(),
                     mmap: mmap.clone(),
@@ -348,7 +357,7 @@ impl Walrus {
                             in_block_off += consumed as u64;
                             entries_in_block = entries_in_block.saturating_add(1);
                             // no room for another header: do not read past the block (and the file)
-                            if in_block_off + PREFIX_META_SIZE as u64 > DEFAULT_BLOCK_SIZE {
+                            if in_block_off + PREFIX_META_SIZE as u64 > block_limit {
                                 break;
                             }
                         }
@@ -362,7 +371,7 @@ impl Walrus {
                 let block = Block {
                     id: next_block_id as u64,
                     offset: block_offset,
-                    limit: DEFAULT_BLOCK_SIZE,
+                    limit: block_limit,
                     used,
                     file_path: file_path.clone(),
                     mmap: mmap.clone(),
@@ -385,7 +394,7 @@ impl Walrus {
                     );
                 }
                 next_block_id += 1;
-                block_offset += DEFAULT_BLOCK_SIZE;
+                block_offset += block_limit;
             }
         }
 
